@@ -143,6 +143,16 @@ func genEntries(r *rand.Rand, id int, version, maxEnts int) []ent {
 		default:
 			k = []byte(fmt.Sprintf("k%d-%d", id, i))
 		}
+		// keys of one tx related by prefix, in either order (the longer key first, or the shorter): the entry
+		// of a key must be found by the whole key
+		if len(es) > 0 && r.IntN(4) == 0 {
+			o := es[r.IntN(len(es))].key
+			if r.IntN(3) != 0 && len(o) > 1 {
+				k = append([]byte{}, o[:1+r.IntN(len(o)-1)]...)
+			} else {
+				k = append(append([]byte{}, o...), randBytes(r, 1+r.IntN(3))...)
+			}
+		}
 		dup := false
 		for _, e := range es {
 			if bytes.Equal(e.key, k) {
